@@ -80,6 +80,15 @@ func c03CtorVerifies(c *Ctx) {
 				skipParam = p
 			}
 		}
+		// the requested id may be compared directly or after it was parked in the new chunk's id field
+		idStored := false
+		instrs(fn, func(_ *ssa.BasicBlock, _ int, ins ssa.Instruction) {
+			if st, ok := ins.(*ssa.Store); ok && ins.Parent() == fn {
+				if fa, ok := st.Addr.(*ssa.FieldAddr); ok && fieldOf(fa) == "Chunk.id" && isParam(st.Val, idParam) {
+					idStored = true
+				}
+			}
+		})
 		var bad []string
 		okPaths := 0
 		h := &Hooks{
@@ -115,7 +124,9 @@ func c03CtorVerifies(c *Ctx) {
 				isSum := func(v ssa.Value) bool {
 					return hasOrigin(v, func(o string) bool { return o == "call:(*desync.Chunk).ID#0" })
 				}
-				isID := func(v ssa.Value) bool { return isParam(st.ArgOf(v), idParam) }
+				isID := func(v ssa.Value) bool {
+					return isParam(st.ArgOf(v), idParam) || (idStored && onlyOrigins(v, func(o string) bool { return o == "field:Chunk.id" }))
+				}
 				if eqOnTrue, ok := equalEdge(iff, isSum, isID); ok && (iff.Parent() == fn || isNewHelper(iff.Parent())) {
 					if taken == eqOnTrue {
 						st.Flags["equal"] = 1
@@ -322,6 +333,9 @@ func c03Consumers(c *Ctx) {
 	var sites []site
 	if fn := c.fn("UnTarIndex"); fn != nil {
 		for _, cl := range closures(fn) {
+			if newHelpers[cl] {
+				continue // a local fetch helper: seen through the worker that calls it
+			}
 			if len(calls(cl, named("(desync.Store).GetChunk"))) > 0 {
 				sites = append(sites, site{cl, "UnTarIndex.worker"})
 			}
